@@ -17,8 +17,8 @@ from symx.vc import VC, eq_formula
 from readers import eamtables
 
 NAMES = ["Cu", "Al", "Zr", "B"]          # deliberately not in sorted order
-ZNUM = {"Cu": 29, "Al": 13, "Zr": 40, "B": 5, "Fe_gamma": 26, "Fe_alpha": 27, "O2-": 8, "F-": 9}      # (8-character labels: the longest DL_POLY accepts)
-LATT = {"Cu": "fcc", "Al": "bcc", "Zr": "hcp", "B": "dia", "Fe_gamma": "fcc", "Fe_alpha": "bcc", "O2-": "fcc", "F-": "bcc"}
+ZNUM = {"Cu": 29, "Al": 13, "Zr": 40, "B": 5, "Fe_gamma": 26, "Fe_alpha": 27, "O2-": 8, "F-": 9, "Ag": 47, "Ag+": 48, "O": 10}      # (8-character labels: the longest DL_POLY accepts)
+LATT = {"Cu": "fcc", "Al": "bcc", "Zr": "hcp", "B": "dia", "Fe_gamma": "fcc", "Fe_alpha": "bcc", "O2-": "fcc", "F-": "bcc", "Ag": "fcc", "Ag+": "bcc", "O": "hcp"}
 
 
 class Model(object):
